@@ -51,9 +51,15 @@ def run(tier, seed, t0):
     scn = scenarios.crash_scenarios(total, writes, hs, tier, rng)
     # missed heartbeats (real time, 1 s interval): the server goes silent with a call in flight
     scn += scenarios.generate("hb_silence", 3 if tier == "quick" else 12, seed)
+    # a close right behind the reply of a caller that has not yet picked its reply up
+    slow = scenarios.generate("reply_then_close", 100 if tier == "quick" else 1500, seed)
+    for k, x in enumerate(slow):
+        x["fault"], x["at"] = "close-behind-reply", k
+    scn += slow
     files, summ = vlib.run_sessions(PROP, scn, tier, hang_ms=5000 if tier == "quick" else 20000)
     consumed, bad = vlib.validate_traces("ConnTrace", "ConnTrace.cfg", files, timeout=3000, xmx="4g")
-    v = vlib.Verdict(PROP, own_kinds=("crash-offset", "crash-write", "crash-step", "crash-hb-silence"))
+    v = vlib.Verdict(PROP, own_kinds=("crash-offset", "crash-write", "crash-step", "crash-hb-silence",
+                                       "connclose-slowcaller"))
     v.absorb(bad)
     kinds = Counter((s["kind"], s["fault"]) for s in scn)
     distinct = len({(s["kind"], s["fault"], s["at"]) for s in scn})
@@ -63,7 +69,9 @@ def run(tier, seed, t0):
              "listener, multi-frame deliveries, get with content, publishes, a call in flight whose reply is withheld, cancel, "
              "channel close, connection close; server->client stream of %d bytes, %d client writes) is cut at: every byte "
              "offset after the handshake (%s) with EOF or connection reset; every client write with a write error; "
-             "every step boundary with an unparseable frame / EOF / reset / failing next write. Other threads are inside a "
+             "every step boundary with an unparseable frame / EOF / reset / failing next write; plus sessions in which the "
+             "server (or the CloseOk of a client close, or a channel close) ends things right behind the reply of a caller "
+             "that is held just before it picks its reply up. Other threads are inside a "
              "blocked call, a publish or own a consumer queue at that moment. distinct/non-trivial = distinct (kind of "
              "fault, position)" % (total, writes, "all offsets" if tier == "thorough" else
                                    "every 3rd offset plus a seeded sample of 150"),
